@@ -250,6 +250,10 @@ func (st *taintState) sinksOf(fn *ssa.Function) []TaintSink {
 			if f := x.Call.StaticCallee(); f != nil && f.Pkg != nil && f.Pkg.Pkg.Path() == "reflect" && f.Name() == "MakeSlice" {
 				add(ins, "reflect-makeslice", x.Call.Args[1])
 			}
+			// the `unsafe` build variant allocates arrays through the runtime's unsafe_NewArray
+			if f := x.Call.StaticCallee(); f != nil && f.Name() == "unsafe_NewArray" && len(x.Call.Args) == 2 {
+				add(ins, "reflect-makeslice", x.Call.Args[1])
+			}
 		case *ssa.If:
 			// loop whose trip count is a wire value and whose body has no other exit
 			bo, ok := x.Cond.(*ssa.BinOp)
